@@ -19,7 +19,7 @@ func runC04(c *Ctx) {
 		depth = 4
 	}
 	c.Exhaustive = true
-	c.Rule = fmt.Sprintf("all call sequences of depth <= %d over {Add/Remove/Update (Grouping)Policy, batch add, filtered removal, ClearPolicy, LoadPolicy, BuildRoleLinks, SetRoleManager(+BuildRoleLinks), AddNamedMatchingFunc, AddNamedDomainMatchingFunc, SetModel(+LoadPolicy)} with every request of the universe enforced (Enforce and EnforceWithMatcher with a second matcher) before the first and after every change, on an RBAC model whose names include patterns (/book/* etc.) and on a domain model with a '*' domain; after every change the live enforcer's decisions are compared with the Lean model and (on the implementation) with a freshly constructed enforcer given the listed rules and the functions registered so far; seeded random sequences to length 30; non-trivial = a sequence in which some decision changed; distinct = whole sequence", depth)
+	c.Rule = fmt.Sprintf("all call sequences of depth <= %d over {Add/Remove/Update (Grouping)Policy, batch add, filtered removal, ClearPolicy, (and of depth 2 over every other path: batch removal and update on p and g, UpdateFilteredPolicies, SavePolicy) LoadPolicy, BuildRoleLinks, SetRoleManager(+BuildRoleLinks), AddNamedMatchingFunc, AddNamedDomainMatchingFunc, SetModel(+LoadPolicy)} with every request of the universe enforced (Enforce and EnforceWithMatcher with a second matcher) before the first and after every change, on an RBAC model whose names include patterns (/book/* etc.) and on a domain model with a '*' domain; after every change the live enforcer's decisions are compared with the Lean model and (on the implementation) with a freshly constructed enforcer given the listed rules and the functions registered so far; seeded random sequences to length 30; non-trivial = a sequence in which some decision changed; distinct = whole sequence", depth)
 	// plain RBAC with pattern-like names
 	ms := rbacSpec(false, false)
 	P := [][]string{{"book_admin", "data", "read"}, {"alice", "data", "write"}}
@@ -151,6 +151,23 @@ func runC04(c *Ctx) {
 	opts := CaseOpts{Adapter: true, ALines: nil, Customs: custom, MatchFns: []string{"keyMatch"}, OraUniverse: universe}
 	cfg := mk("rbac-pattern", ms, alpha, probes, reqs, opts)
 	enumerate(c, cfg)
+	// every other way of changing rules (batch removal and update on p and g, filtered removal on p,
+	// UpdateFilteredPolicies, SavePolicy): each path has its own invalidation; sequences of two calls
+	alphaX := append(append([]EOp(nil), alpha...),
+		EOp{Kind: "rms", Sec: "g", PType: "g", Rules: [][]string{G[0], G[1]}},
+		EOp{Kind: "rms", Sec: "p", PType: "p", Rules: [][]string{P[0]}},
+		EOp{Kind: "upds", Sec: "g", PType: "g", Rules: [][]string{G[1]}, News: [][]string{{"alice", "reader"}}},
+		EOp{Kind: "upds", Sec: "p", PType: "p", Rules: [][]string{P[0]}, News: [][]string{{"reader", "data", "read"}}},
+		EOp{Kind: "upd", Sec: "p", PType: "p", Rule: P[0], New: []string{"reader", "data", "read"}},
+		EOp{Kind: "rmf", Sec: "p", PType: "p", FI: 0, Vals: []string{"book_admin"}},
+		EOp{Kind: "rmf", Sec: "g", PType: "g", FI: 0, Vals: []string{"alice"}},
+		EOp{Kind: "updf", Sec: "p", PType: "p", FI: 0, Vals: []string{"book_admin"}, News: [][]string{{"reader", "data", "read"}}},
+		EOp{Kind: "adds", Sec: "p", PType: "p", Rules: [][]string{P[0], P[1]}},
+		EOp{Kind: "save"},
+	)
+	cfgX := mk("rbac-pattern-all-paths", ms, alphaX, probes, reqs, opts)
+	cfgX.Depth = 2
+	enumerate(c, cfgX)
 
 	// manual role links: auto-build and auto-save off, the store already holds rules; LoadPolicy then leaves the
 	// links alone until BuildRoleLinks (which does not invalidate by itself)
